@@ -417,20 +417,27 @@ def rule_pa1(ctx):
                   "(axes -1 and -2), so W^-1 stays the inverse of W")
     f = ctx.p.get_function(CORE, "diagonalize_form")
     r.analysed(f)
-    calls = {}
-    for n in ast.walk(f.node):
-        if isinstance(n, ast.Assign) and isinstance(n.value, ast.Call) \
-                and dotted(n.value.func) == "permute_along_axis":
-            calls[dotted(n.targets[0])] = n.value
-    if set(calls) != {"W", "Winv"}:
-        # gather form: np.take_along_axis(M, <index built from order>, axis)
-        takes = {}
+    # the two matrices are told apart by the axis they are permuted along
+    # (columns of W: -1, rows of W^-1: -2), not by the names they carry
+    def by_axis(fname, axis_pos):
+        out = {}
         for n in ast.walk(f.node):
             if isinstance(n, ast.Assign) and isinstance(n.value, ast.Call) \
-                    and dotted(n.value.func) == "np.take_along_axis" \
-                    and dotted(n.targets[0]) in ("W", "Winv") \
+                    and dotted(n.value.func) == fname \
                     and len(n.value.args) >= 2:
-                takes[dotted(n.targets[0])] = n.value
+                ax = next((dotted(k.value) for k in n.value.keywords
+                           if k.arg == "axis"), None)
+                if ax is None and len(n.value.args) > axis_pos:
+                    ax = dotted(n.value.args[axis_pos])
+                role = {"-1": "W", "-2": "Winv"}.get(ax)
+                if role is None or role in out:
+                    return {}
+                out[role] = n.value
+        return out
+    calls = by_axis("permute_along_axis", 2)
+    if set(calls) != {"W", "Winv"}:
+        # gather form: np.take_along_axis(M, <index built from order>, axis)
+        takes = by_axis("np.take_along_axis", 2)
         if set(takes) != {"W", "Winv"}:
             r.note("PA1", loc(f, f.node), "diagonalize_form",
                    "permutation idiom not recognised")
@@ -811,16 +818,23 @@ def rule_fw1(ctx):
     side = None
     idx = None
     ynode = None
+    # the shorter word is the loop variable ranging over the recursive call
+    wv = "word"
+    for n in ast.walk(f.node):
+        if isinstance(n, ast.For) and isinstance(n.target, ast.Name) and any(
+                isinstance(c, ast.Call) and dotted(c.func).endswith(
+                    "free_words_of_length") for c in ast.walk(n.iter)):
+            wv = n.target.id
     for n in ast.walk(f.node):
         if isinstance(n, ast.Yield) and isinstance(n.value, ast.BinOp) \
                 and isinstance(n.value.op, ast.Add):
             L, R = dotted(n.value.left), dotted(n.value.right)
-            if L == "word":
+            if L == wv:
                 side = "append"
-            elif R == "word":
+            elif R == wv:
                 side = "prepend"
             ynode = n
-        if isinstance(n, ast.Subscript) and dotted(n.value) == "word":
+        if isinstance(n, ast.Subscript) and dotted(n.value) == wv:
             v = const_value(n.slice)
             if v in (-1, 0):
                 idx = v
